@@ -149,6 +149,38 @@ def check_units(res, tier):
     triples(user, "user-tree", tier == "thorough" and len(user) <= 40)
     reent = {k: v for k, v in fam.items() if k in ("meter", "inch", "centimeter", "foot") or "reentrant" in k or k.startswith("span")}
     triples(reent, "reentrant-user-units", True)
+    # short-lived user units: each is created, used and dropped before the next one exists (so that whatever the
+    # library remembers about a unit that is gone cannot leak into an unrelated later one), alone and as parent/child pairs
+    import gc
+
+    ks = [1000.0, 0.001, 2.0, 0.5, 12.0, 0.3048, 100.0, 1.0, 3.0, 0.25]
+    rounds = 30 if tier == "quick" else 300
+    for rnd in range(rounds):
+        for i, k in enumerate(ks):
+            k2 = ks[(i + rnd + 1) % len(ks)]
+            rp = dict(engine="inputs", kind="units-short-lived", factor=k, round=rnd)
+            u = units.Unit(base_unit=units.meter, base_to_unit=(lambda x, k=k: x * k), unit_to_base=(lambda x, k=k: x / k))
+            got = conv(units.meter, u, 2.0)
+            back = conv(u, units.meter, got) if got is not None else None
+            res.checks += 2
+            if got is None or not close(got, 2.0 * k, 4) or not close(back, 2.0, 6):
+                res.violation("short-lived-unit:single", f"a fresh user unit with {k} units per metre (created after {rnd * len(ks) + i} earlier ones were dropped): convert(meter, u, 2.0) = {got!r} (expected {2.0 * k!r}), back = {back!r}", rp)
+                break
+            if rnd % 3 == 0:
+                child = units.Unit(base_unit=u, base_to_unit=(lambda x, k2=k2: x * k2), unit_to_base=(lambda x, k2=k2: x / k2))
+                got2 = conv(units.centimeter, child, 50.0)
+                res.checks += 1
+                if got2 is None or not close(got2, 0.5 * k * k2, 8):
+                    res.violation("short-lived-unit:chain", f"fresh chain metre -> u({k}) -> child({k2}): convert(centimeter, child, 50.0) = {got2!r}, expected {0.5 * k * k2!r}", rp)
+                    break
+                del child
+            del u
+            if rnd % 2:
+                gc.collect()
+        else:
+            continue
+        break
+    res.bounds.update(short_lived_user_units=rounds * len(ks))
     res.bounds.update(builtin_triples=64, units_in_family=len(fam), units_in_user_tree=len(user), values=VALUES)
     res.sample(dict(kind="units", triple=["inch", "centimeter", "foot"], value=12345.678, identities=["same unit", "there and back", "a->b->c == a->c", "linear"]))
 
@@ -219,7 +251,9 @@ def check_pressure(res, tier):
     # calibrate / voltage histories
     volts = [0.5, 2.0, 4.5, 0.0, -1.0]
     press = [0.0, 50.0, 120.0]
-    ops = [("v", x) for x in volts] + [("cal", p) for p in press] + [("read", None)]
+    # ("vcc", x): the public voltage_in attribute is changed (uncalibrated readings follow the formula with the current value; a
+    # calibrated sensor reports p at the calibration voltage whatever it is)
+    ops = [("v", x) for x in volts] + [("cal", p) for p in press] + [("read", None)] + [("vcc", 4.8), ("vcc", 3.0)]
     depth = 4 if tier == "quick" else 5
     for vcc in (5, 3.3):
         for ln in range(1, depth + 1):
@@ -235,6 +269,9 @@ def check_pressure(res, tier):
                 for kind, x in list(seq) + [("back", None), ("read", None)]:
                     rp = dict(engine="inputs", kind="pressure-history", vcc=vcc, history=[list(o) for o in seq])
                     try:
+                        if kind == "vcc":
+                            s.voltage_in = x
+                            continue
                         if kind == "v":
                             s.sensor.v = x
                             continue  # reads are operations of their own: a defect may depend on *not* reading here
@@ -257,7 +294,7 @@ def check_pressure(res, tier):
                             res.violation(f"calibration:{'first' if ncal == 1 else 'repeated'}", f"Vcc={vcc}: history {list(seq)}: reads {got!r} at the calibration voltage, calibrated to {cal_p!r}", rp)
                             break
                     elif cal_v is None and s.sensor.v > 0:
-                        want = 250 * s.sensor.v / vcc - 25
+                        want = 250 * s.sensor.v / s.voltage_in - 25
                         if not close(got, want, 4):
                             res.violation("pressure-formula", f"history {list(seq)}: {got!r}, expected {want!r}", rp)
                             break
@@ -276,9 +313,9 @@ def main(tier, seed):
     rule = (
         "units: all 64 ordered triples of the built-in units and triples over generated user-defined unit chains (factors 2 / 0.3048 / 12 / 100, hanging off "
         "every built-in unit and off a separate user-defined root, chain depth 2 [thorough: 4]) x 10 values: same-unit, there-and-back, a->b->c == a->c, "
-        "scale equals the independently computed ratio, linearity (rel 1e-12 per step), and the exact constants 100, 0.3048, 12. Sonar: pulse widths 0-30 ms and "
+        "scale equals the independently computed ratio, linearity (rel 1e-12 per step), and the exact constants 100, 0.3048, 12; plus hundreds of short-lived user units created and dropped one after another. Sonar: pulse widths 0-30 ms and "
         "voltages 0-5 V on a grid x 4 output units. Pressure: voltages from -0.125 to 5 V on a grid x Vcc in {5, 3.3, 5.0, 12.0, 0, 0.0} (formula for positive "
-        "voltages, never raises) and every set-voltage / calibrate(p) history up to the stated length (p in {0, 50, 120}): at the calibration voltage the reading is p."
+        "voltages, never raises) and every set-voltage / set-voltage_in / read / calibrate(p) history up to the stated length (p in {0, 50, 120}): at the calibration voltage the reading is p."
     )
     return core.finish(PID, tier, seed, res, time.time() - t0, rule, ["wpilib inside the sonar / pressure driver modules is replaced by stub Counter / AnalogInput classes (as the repository's own tests do)", "readings at voltages other than the calibration voltage after calibrate() are not specified"])
 
